@@ -190,6 +190,12 @@ def gen_cases(tier, seed):
             ts.append({'kind': 'upload', 'src': 'path', 'size': rng.choice([z for z in sizes if z != ts[-1]['size']]), 'same_source_as': 0})
         cases.append({'seed': rng.randrange(1 << 30), 'min_part': C, 'sequential': True, 'transfers': ts, 'family': 'same-path-again',
                       'config': dict(multipart_threshold=T, multipart_chunksize=C, max_request_concurrency=rng.choice([1, 2, 3]))})
+    # copies of an OLDER version of the source (VersionId in the copy source) while the key's current version is other data
+    for i in range(24 if tier == 'quick' else 240):
+        T, C = rng.choice([(8, 8), (16, 8), (20, 8)])
+        cases.append({'seed': rng.randrange(1 << 30), 'min_part': C, 'family': 'versioned-source',
+                      'transfers': [{'kind': 'copy', 'size': rng.choice([1, T - 1, T, 2 * C + 1, 4 * C, 5 * C + 3]), 'versioned': True}],
+                      'config': dict(multipart_threshold=T, multipart_chunksize=C, max_request_concurrency=rng.choice([1, 2, 3]))})
     # explicit checksum algorithms (part checksums must be listed at complete)
     for algo in ('CRC32', 'SHA256', 'SHA1'):
         for src in ('path', 'seekable', 'nonseekable'):
